@@ -43,7 +43,12 @@ var c18ops = []c18op{
 	{"redact%+v", func(e error, _ []error, _ []byte) string { return string(redact.Sprintf("%+v", e)) }},
 	{"redact%v.Redact", func(e error, _ []error, _ []byte) string { return string(redact.Sprint(e).Redact()) }},
 	{"EncodeError", func(e error, _ []error, _ []byte) string { return string(sim.EncBytes(e)) }},
-	{"DecodeError", func(_ error, _ []error, w []byte) string { return fmt.Sprintf("%+v", sim.DecBytes(w)) }},
+	{"DecodeError", func(_ error, _ []error, w []byte) string {
+		if w == nil {
+			return "" // cold-process case: nothing has been encoded yet
+		}
+		return fmt.Sprintf("%+v", sim.DecBytes(w))
+	}},
 	{"Is/IsAny", func(e error, refs []error, _ []byte) string {
 		var b strings.Builder
 		for _, r := range refs {
@@ -91,6 +96,9 @@ var c18ops = []c18op{
 
 var c18never = goErr.New("never matches")
 
+// c18processCold: nothing in this process has used the library for reading yet.
+var c18processCold = true
+
 type interval struct {
 	g        int
 	from, to int64
@@ -119,8 +127,15 @@ func runC18(c *core.Ctx) {
 		}
 	}
 	twin, m, e := built[0], maps[0], built[1]
+	// The first case a process handles finds the LIBRARY's process-wide state cold as well (tables
+	// filled on first use, registries, pools): there the goroutines run before anything else has
+	// called into the library for reading, and the "executed alone" reference is computed afterwards.
+	cold := c18processCold
+	c18processCold = false
 	mode := "local"
-	if c.Case%2 == 1 {
+	if cold {
+		mode = "local(cold process)"
+	} else if c.Case%2 == 1 {
 		mode = "decoded"
 		if p := core.Try(func() { twin, _ = sim.Hop(twin); e = sim.DecBytes(sim.EncBytes(twin)) }); p != nil {
 			return
@@ -133,36 +148,54 @@ func runC18(c *core.Ctx) {
 	gen.Walk(t, func(n *gen.Node, _ bool) { refs = append(refs, m[n]) })
 	var wire []byte
 	want := make([]string, len(c18ops))
-	if p := core.Try(func() {
-		wire = sim.EncBytes(twin)
-		for i, op := range c18ops {
-			want[i] = op.f(twin, refs, wire)
+	reference := func() bool {
+		if p := core.Try(func() {
+			if !cold {
+				wire = sim.EncBytes(twin)
+			}
+			for i, op := range c18ops {
+				want[i] = op.f(twin, refs, wire)
+			}
+		}); p != nil {
+			c.Violate("panic/sequential", "an operation panicked when executed alone", fmt.Sprintf("%s\n%v", t, p))
+			return false
 		}
-	}); p != nil {
-		c.Violate("panic/sequential", "an operation panicked when executed alone", fmt.Sprintf("%s\n%v", t, p))
-		return
+		return true
 	}
 	// every operation as the FIRST one on a fresh, identical error: a read-only call must not
 	// depend on (or leave behind) state from other read-only calls
-	for i, op := range c18ops {
-		v := built[2+i]
-		if p := core.Try(func() {
-			if mode == "decoded" {
-				v = sim.DecBytes(sim.EncBytes(twin))
+	firstCalls := func() {
+		for i, op := range c18ops {
+			v := built[2+i]
+			if p := core.Try(func() {
+				if mode == "decoded" {
+					v = sim.DecBytes(sim.EncBytes(twin))
+				}
+				c.Count("first-call-on-fresh-value-comparisons", 1)
+				if got := op.f(v, refs, wire); got != want[i] {
+					c.Violate("order-dependent/"+op.name, "a call executed first on a fresh identical error returns another result than after other read-only calls", fmt.Sprintf("%s (%s)", t, mode))
+				}
+			}); p != nil {
+				c.Violate("panic/first-call", "an operation panicked when executed first on a fresh value", fmt.Sprintf("%s\n%v", t, p))
 			}
-			c.Count("first-call-on-fresh-value-comparisons", 1)
-			if got := op.f(v, refs, wire); got != want[i] {
-				c.Violate("order-dependent/"+op.name, "a call executed first on a fresh identical error returns another result than after other read-only calls", fmt.Sprintf("%s (%s)", t, mode))
-			}
-		}); p != nil {
-			c.Violate("panic/first-call", "an operation panicked when executed first on a fresh value", fmt.Sprintf("%s\n%v", t, p))
 		}
+	}
+	if !cold {
+		if !reference() {
+			return
+		}
+		firstCalls()
 	}
 	G, R := 16, 3
 	if c.Tier == "thorough" {
 		G, R = 48, 6
 	}
+	type output struct {
+		oi  int
+		got string
+	}
 	type result struct {
+		outs  []output // cold process: compared after the reference has been computed
 		mism  []string
 		ivs   []interval
 		panic interface{}
@@ -189,7 +222,9 @@ func runC18(c *core.Ctx) {
 						got := c18ops[oi].f(e, refs, wire)
 						b := time.Since(t0).Nanoseconds()
 						my.ivs = append(my.ivs, interval{gi, a, b})
-						if got != want[oi] {
+						if cold {
+							my.outs = append(my.outs, output{oi, got})
+						} else if got != want[oi] {
 							my.mism = append(my.mism, c18ops[oi].name)
 						}
 					}
@@ -199,6 +234,20 @@ func runC18(c *core.Ctx) {
 	}
 	close(start)
 	wg.Wait()
+	if cold {
+		c.Count("cold-process-cases", 1)
+		if !reference() {
+			return
+		}
+		for gi := range res {
+			for _, o := range res[gi].outs {
+				if o.got != want[o.oi] {
+					res[gi].mism = append(res[gi].mism, c18ops[o.oi].name)
+				}
+			}
+		}
+		firstCalls()
+	}
 	// merge (after Wait: no synchronisation inside the measured region)
 	var all []interval
 	for gi := range res {
